@@ -92,3 +92,16 @@ Theorem nth_is_first_of_skip : forall A (ys : list A) k, in_isize k = true ->
     else match nth_error ys (Z.to_nat k) with Some y => sone y | None => SNil end.
 Proof. exact @LastLaws.nth_def. Qed.
 Print Assumptions nth_is_first_of_skip.
+
+(** `isempty(g)` = `first((g | false), true)` (its definition in defs.jq): true for a stream without outputs, false as soon as
+    there is a first output whatever follows it, and the stream's own failure when it fails before its first output *)
+Theorem isempty_looks_at_the_first_output_only : forall A (s : str A),
+  LastLaws.isempty_s s = match s with
+                         | SNil => sone (Bool true)
+                         | SCons _ _ => sone (Bool false)
+                         | SExn e => SExn e
+                         | SBot => SBot
+                         | SUnk => SUnk
+                         end.
+Proof. exact @LastLaws.isempty_spec. Qed.
+Print Assumptions isempty_looks_at_the_first_output_only.
